@@ -57,6 +57,10 @@ def constIsItem (c : Compiled) (m : Nat) (n item : Name) (v : Int) : Bool :=
 def rootOfTypedef (c : Compiled) (m : Nat) (n : Name) : Option (Option LType) :=
   alookup (m, n) c.st.root
 
+/-- what `RootTypeSpec` answers for typedef `n` after linking -/
+def rootSeenOfTypedef (c : Compiled) (m : Nat) (n : Name) : Option LType :=
+  rootIn c.prog c.st (.named m n)
+
 /-! ### the programs -/
 
 /-- D7: `enum E {A = 4294967296}` -/
